@@ -675,7 +675,7 @@ class Interp:
             if objv.rev:
                 d_ = -d_
             if isinstance(objv.c, dict):
-                ks = [k_ for k_ in objv.c if k_ != '__map__']
+                ks = _keys(objv.c)
                 pos = ks.index(objv.k) + d_ if objv.k in ks else len(ks)
                 nv = It(objv.c, ks[pos] if 0 <= pos < len(ks) else It.END)
             else:
@@ -875,7 +875,7 @@ class Interp:
         elif k == 'CXXForRangeStmt':
             seq = self.ev(f, st['range'], env)
             if isinstance(seq, dict) and seq.get('__map__'):
-                items = [self.ref({'__cls__': None, '__open__': True, 'first': k_, 'second': v}) for k_, v in list(seq.items()) if k_ != '__map__']
+                items = [self.ref({'__cls__': None, '__open__': True, 'first': k_, 'second': seq[k_]}) for k_ in _keys(seq)]
             elif isinstance(seq, list):
                 items = list(seq)
             elif hasattr(seq, 'iter_values'):
@@ -1557,7 +1557,12 @@ VECTOR_HOOKS = {
 # ---- iterators over sequences and maps ---------------------------------------------------------------------------------------------
 
 def _keys(m):
-    return [k_ for k_ in m if k_ != '__map__']
+    """the keys of a map in the order std::map walks them (by key, when the keys are all numbers or all text; insertion order otherwise, one of the orders an unordered
+    container may have)"""
+    ks = [k_ for k_ in m if k_ != '__map__']
+    if all(isinstance(k_, int) for k_ in ks) or all(isinstance(k_, str) for k_ in ks):
+        return sorted(ks)
+    return ks
 
 
 def _find(it, f, st, a):
@@ -1624,7 +1629,12 @@ def _erase(it, f, st, a):
     x = a[0]
     if isinstance(v, dict):
         key = x.k if isinstance(x, It) else (it.cstr(x) if it.cstr(x) is not None else x)
-        return int(v.pop(key, None) is not None) if not isinstance(x, It) else (v.pop(key, None), It(v, It.END))[1]
+        if not isinstance(x, It):
+            return int(v.pop(key, None) is not None)
+        ks = _keys(v)
+        nxt = ks[ks.index(key) + 1] if key in ks and ks.index(key) + 1 < len(ks) else It.END         # erase(iterator) answers the element that followed
+        v.pop(key, None)
+        return It(v, nxt)
     if isinstance(x, It):
         if len(a) == 2 and isinstance(a[1], It):
             del v[x.k:a[1].k]
